@@ -50,6 +50,7 @@ class ModuleModel:
         self.tree = ast.parse(self.source, filename=path)
         self.globals = {}
         self.binders = {}
+        self._twins = None
         self._index(self.tree.body)
         self.evaluating = set()
 
@@ -77,11 +78,28 @@ class ModuleModel:
     def segment(self, node):
         return ast.get_source_segment(self.source, node) or ''
 
+    def twins(self):
+        """SYMBOLIC_TWINS = {'spec_fn': 'module:impl'} of a sidecar: spec primitives
+        whose symbolic meaning is a trusted model instead of their Python body."""
+        if self._twins is None:
+            self._twins = {}
+            node = self.binders.get('SYMBOLIC_TWINS')
+            if isinstance(node, ast.Assign):
+                self._twins = ast.literal_eval(node.value)
+        return self._twins
+
     def lookup(self, name):
         if name in self.globals:
             return self.globals[name]
         if name not in self.binders:
             raise KeyError(name)
+        if name != 'SYMBOLIC_TWINS' and name in self.twins():
+            import importlib
+            modname, fn = self.twins()[name].split(':')
+            impl = getattr(importlib.import_module(modname), fn)
+            val = Builtin(f'twin:{name}', impl)
+            self.globals[name] = val
+            return val
         node = self.binders[name]
         interp = self.world.interp
         if isinstance(node, ast.FunctionDef):
@@ -1451,6 +1469,13 @@ class Interp:
                 # constant bounds: SMT str.substr already clamps like Python
                 a = 0 if lo is None else lo
                 if a >= 0 and hi is None:
+                    # s = "const" ++ rest with len(const) >= a: drop syntactically
+                    if z3.is_app(s) and s.decl().kind() == z3.Z3_OP_SEQ_CONCAT and \
+                            z3.is_string_value(s.arg(0)) and len(s.arg(0).as_string()) >= a:
+                        head = s.arg(0).as_string()[a:]
+                        rest = [s.arg(i) for i in range(1, s.num_args())]
+                        parts = ([z3.StringVal(head)] if head else []) + rest
+                        return mk_str(parts[0] if len(parts) == 1 else z3.Concat(*parts))
                     return mk_str(z3.SubString(s, a, n))
                 if a >= 0 and hi >= 0:
                     return mk_str(z3.SubString(s, a, max(hi - a, 0)))
